@@ -31,3 +31,31 @@ func ClientHello(name string) []byte {
 	c1.Close()
 	return <-done
 }
+
+// ClientHelloCfg returns the bytes of the ClientHello a crypto/tls client sends for cfg.
+func ClientHelloCfg(cfg *tls.Config) []byte {
+	c1, c2 := net.Pipe()
+	done := make(chan []byte, 1)
+	go func() {
+		var acc []byte
+		buf := make([]byte, 1<<16)
+		c2.SetReadDeadline(time.Now().Add(5 * time.Second))
+		for {
+			n, err := c2.Read(buf)
+			acc = append(acc, buf[:n]...)
+			if len(acc) >= 5 && len(acc) >= 5+(int(acc[3])<<8|int(acc[4])) {
+				break
+			}
+			if err != nil {
+				break
+			}
+		}
+		done <- acc
+		c2.Close()
+	}()
+	cl := tls.Client(c1, cfg)
+	cl.SetDeadline(time.Now().Add(5 * time.Second))
+	cl.Handshake()
+	c1.Close()
+	return <-done
+}
